@@ -1375,7 +1375,9 @@ pub fn run_tls_sessions(cfg: &ScenCfg, out: &mut RunOut) {
                         let want = mbap_frame(tx, 1, &[4, 2, (v >> 8) as u8, v as u8]);
                         let got: Vec<u8> = log.lock().unwrap().replies[before..].concat();
                         if got != want {
-                            out.violate("C15", "live_tls_session_not_served", format!("TLS session {} (live per model {:?}, limit {}) answered {} expected {}", id, live, max_sessions, hex(&got), hex(&want)));
+                            let d = format!("TLS session {} (live per model {:?}, limit {}) answered {} expected {}", id, live, max_sessions, hex(&got), hex(&want));
+                            out.violate("C15", "live_tls_session_not_served", d.clone());
+                            out.violate("C01", "live_tls_session_not_served", d);
                             return;
                         }
                         out.ops_checked += 1;
@@ -1429,7 +1431,14 @@ pub fn run_tls_sessions(cfg: &ScenCfg, out: &mut RunOut) {
         want.sort();
         if open != want {
             let rule = if open.len() > want.len() { "tls_session_not_closed" } else { "tls_wrong_session_closed" };
-            out.violate("C15", rule, format!("TLS server max_sessions={}: open connections {:?}, model expects {:?} (oldest first {:?}) after: {:?}", max_sessions, open, want, live, trace.last()));
+            let d = format!("TLS server max_sessions={}: open connections {:?}, model expects {:?} (oldest first {:?}) after: {:?}", max_sessions, open, want, live, trace.last());
+            out.violate("C15", rule, d.clone());
+            // an established session that the server closed although it was below the limit and not the oldest:
+            // whatever that peer sends from now on is not answered (C01: one reply per request)
+            let established_lost = want.iter().any(|id| !open.contains(id) && matches!(conns.iter().find(|c| c.0 == *id), Some((_, Kind::Tls(..)))));
+            if established_lost {
+                out.violate("C01", "established_tls_session_closed_by_server", d);
+            }
             return;
         }
         out.state((live.len() as u64) | (max_sessions as u64) << 4 | (server_up as u64) << 8);
